@@ -779,7 +779,7 @@ static bool run_ascii(std::vector<IProd*>& pool, int ai, const Shadow& SA, const
   if (d1 != d2) { violation(K15 + "dump_differs" + tcls, "dump/load/dump is not the identity:\n" + d1 + "\n---\n" + d2); return false; }
   Shadow R = observe(*L);
   if (!same_value(R, SA) || R.flag != SA.flag) { violation(K15 + "value_differs" + tcls, "loaded " + show_shadow(R) + " original " + show_shadow(SA)); return false; }
-  if (!L->OK()) { violation(K15 + "OK_false" + tcls, "loaded object is not OK"); return false; }
+  if (!L->OK() && A.OK()) { violation(K15 + "OK_false" + tcls, "loaded object is not OK although the dumped one is"); return false; }
   Shadow RA = observe(A); if (!same_value(RA, SA)) { violation(K15 + "dump_changed_value", "ascii_dump changed the dumped object"); return false; }
   if (coin()) { delete pool[ai]; pool[ai] = L.release(); hx::count("ascii_twin_adopted"); }   // continue the history on the loaded twin
   return true;
